@@ -1,17 +1,50 @@
-(* C02 -- property theorems; see DESIGN.md section 6.  Grows as proofs are completed. *)
-From PJ.Model Require Import Base Lookup Terms Encoder Api.
-From PJ.Proofs Require Import Mirror MirrorRun EncoderProofs.
+(* C02 -- the rdflib Graph/Dataset round trip preserves the RDF data. *)
+From PJ.Model Require Import Base Lookup Terms Wire Encoder Streams Decoder Spec Api.
+From PJ.Proofs Require Import Mirror MirrorRun EncoderProofs AgreeProofs DecoderProofs DecoderSound EncStream EncRdflib.
 
-(* The split of an IRI into prefix and name loses nothing (what the reader concatenates is the IRI). *)
-Theorem C02_split_iri_lossless : forall iri : str, let '(p, n) := split_iri iri in p ++ n = iri.
-Proof. exact split_iri_app. Qed.
-Print Assumptions C02_split_iri_lossless.
+(* For EVERY RDF 1.1 statement sequence (in whatever order rdflib iterated the Graph, or handed by a
+   generator), every frame size, flow and table sizing the writer accepts, what the rdflib
+   TripleStream serializer hands out is accepted by the referee and denotes exactly the
+   (normalised) triples, in that order. *)
+Theorem C02_rdflib_triples_valid :
+  forall (o : soptions) (s s' : stream) (d : rdata) (evs : list tev),
+    stream_new TripleStream Rdflib o = Ok s -> cfg_ok o (st_logical s) ->
+    p_nd (so_params o) = false -> fl_rows (st_flow s) = [] ->
+    rd_kind d <> RDataset -> stmts_rdf11 (rd_stmts d) = true ->
+    rdf_triples_stream_frames d s = (s', evs) -> raised evs = None ->
+    run (flat_map f_rows (emitted evs)) = Valid (flat_map event_of_triple (rd_stmts d)).
+Proof. exact rdf_triples_stream_valid. Qed.
+Print Assumptions C02_rdflib_triples_valid.
 
-(* Every index the writer emits for a key resolves on the reader to that key, for every history
-   of hits, misses and evictions of each table (the lookup core of the round trip; see C05). *)
-Theorem C02_lookup_indices_resolve :
-  forall (rule : lk_rule) (size : N) (keys : list str),
-    1 <= size ->
-    Forall2 (fun k o => exists obs, o = Some obs /\ obs_ok size k obs) keys (api_lookup rule size keys).
-Proof. exact api_lookup_ok. Qed.
-Print Assumptions C02_lookup_indices_resolve.
+(* ... and the rdflib parser decodes what the stream denotes: it agrees with the generic decoder
+   frame by frame on RDF 1.1 streams, and the generic decoder is sound (C04). *)
+Theorem C02_rdflib_parser_agrees :
+  forall (ak : adapter_kind) (po : poptions) (fs : list frame) (st : dstate),
+    forallb (fun f => forallb row_rdf11 (f_rows f)) fs = true ->
+    decode_frames Generic ak po fs st = decode_frames Rdflib ak po fs st.
+Proof. exact decode_frames_agree. Qed.
+Print Assumptions C02_rdflib_parser_agrees.
+
+Theorem C02_generic_parser_sound :
+  forall (fs : list frame) (evs : list event) (dl : bool),
+    run_frames fs = Valid evs ->
+    exists po ak st0 sk first more,
+      skip_empty fs = (sk, first :: more) /\ options_from_frame first dl = Ok po /\
+      route (po_phys po) = Ok ak /\ decoder_new po = Ok st0 /\
+      flat_obs (decode_frames Generic ak po fs st0) = (evs, None).
+Proof. exact decoder_sound_frames. Qed.
+Print Assumptions C02_generic_parser_sound.
+
+(* the two term encoders are the same function on RDF 1.1 statements *)
+Theorem C02_term_encoders_agree :
+  forall (terms : list term) (t : tenc) (rp : repeated),
+    forallb term_rdf11 terms = true -> encode_triple Generic terms t rp = encode_triple Rdflib terms t rp.
+Proof. exact encode_triple_agree. Qed.
+Print Assumptions C02_term_encoders_agree.
+
+(* the rdflib generator over a Graph is the generic generator *)
+Theorem C02_rdflib_generator_is_generic :
+  forall (d : rdata) (s : stream),
+    rd_kind d <> RDataset -> rdf_triples_stream_frames d s = triples_stream_frames (sdata_of d) s.
+Proof. exact rdf_triples_as_generic. Qed.
+Print Assumptions C02_rdflib_generator_is_generic.
